@@ -35,6 +35,8 @@ func runOne(line string) (out string) {
 	}
 	agg := aggx.NewAggregator(head)
 	batch := gostatsd.NewMetricMap(false)
+	decoy := len(line)%2 == 0 // half of the cases
+	wantKey := gostatsd.FormatTagsKey("", append(gostatsd.Tags(nil), head.Tags...))
 	hand := func() {
 		if !batch.IsEmpty() {
 			agg.ReceiveMap(batch)
@@ -49,6 +51,11 @@ func runOne(line string) (out string) {
 		case "d":
 			if len(it) != 3 {
 				return "BAD_CASE"
+			}
+			if decoy && batch.IsEmpty() {
+				// a sibling series with the same name and other tags is received first, so that the series
+				// under test is created through Receive's "name known, tag set new" path as well
+				batch.Receive(aggx.TimerMetric(series, []string{"verif_decoy:1"}, 7, 0.5))
 			}
 			batch.Receive(aggx.TimerMetric(series, head.Tags, hx.MustUnF(it[1]), hx.MustUnF(it[2])))
 		case "m":
@@ -67,6 +74,9 @@ func runOne(line string) (out string) {
 	agg.Process(func(mm *gostatsd.MetricMap) {
 		n := 0
 		mm.Timers.Each(func(name, tagsKey string, t gostatsd.Timer) {
+			if decoy && tagsKey != wantKey {
+				return // the sibling series
+			}
 			n++
 			res = aggx.RenderTimer(t)
 		})
